@@ -8,7 +8,7 @@
      ts  = per input object what inject_object recorded: (section_offsets in section order, new symbol ids).
    Vocabulary (Spec/LinkSpec.v): aligned, bytes_at, contribution_at, least_aligned_from, mem_byte,
    ordered_from, end_of. *)
-From PV Require Import Lib.Py Spec.LinkSpec Model.Linker Proofs.C12_linker Proofs.C12_errors Proofs.C12_e2e.
+From PV Require Import Lib.Py Spec.LinkSpec Model.Linker Proofs.C12_linker Proofs.C12_errors Proofs.C12_e2e Proofs.C12_sdata.
 From Coq Require Import String.
 Open Scope Z_scope.
 
@@ -285,6 +285,43 @@ Theorem c12_end_to_end_contents :
       nth (Z.to_nat (s_addr os + snd rec + k - m_loc m)) bytes 0 = nth (Z.to_nat k) (s_data s) 0.
 Proof. exact end_to_end_contents. Qed.
 Print Assumptions c12_end_to_end_contents.
+
+(* ---- SECTIONDATA copies and relocation (fixes/C12-3-sectiondata-after-relocation.diff).
+   link_final cfg fix_sd relocate = link, then an arbitrary section transformer [relocate] standing for
+   do_relaxations/do_relocations, then (fix_sd = true) update_section_copies. With the fix every load copy
+   `_$n_` holds the final bytes of its source section n, which are the bytes relocate produced for n unless n
+   is itself a generated copy. *)
+Theorem c12_sectiondata_relocated :
+  forall cfg (relocate : list sect -> result (list sect)),
+  (forall secs secs', relocate secs = Ok secs' -> map s_name secs' = map s_name secs) ->
+  forall objs l entry extra out m n,
+  link_final cfg true relocate objs (Some l) entry extra = Ok out ->
+  In m (l_mems l) -> In (ISectionData n) (m_inputs m) ->
+  exists d secs_r c s,
+    link cfg objs (Some l) false entry extra = Ok d /\ relocate (o_sects d) = Ok secs_r /\
+    find_sect (sd_name n) (o_sects out) = Some c /\ find_sect n (o_sects out) = Some s /\
+    s_data c = s_data s /\
+    (~ In n (map fst (sd_pairs (l_mems l))) -> find_sect n secs_r = Some s).
+Proof. exact sectiondata_relocated. Qed.
+Print Assumptions c12_sectiondata_relocated.
+
+(* code as found: the copy keeps the bytes it had at layout time (replayed on the implementation with a
+   real relocation, `dcd =main` in a data section, by tools/props/c12.py) *)
+Theorem c12_sectiondata_stale_refuted :
+  exists out c s,
+    link_final (mk_lcfg true true) false bump_sections [w_sd_obj] (Some w_sd_layout) None [] = Ok out /\
+    find_sect (sd_name "data") (o_sects out) = Some c /\ find_sect "data" (o_sects out) = Some s /\
+    s_data c = [0; 0; 0; 0] /\ s_data s = [1; 1; 1; 1].
+Proof. exact sectiondata_stale_refuted. Qed.
+Print Assumptions c12_sectiondata_stale_refuted.
+
+Theorem c12_sectiondata_fixed_witness :
+  exists out c s,
+    link_final (mk_lcfg true true) true bump_sections [w_sd_obj] (Some w_sd_layout) None [] = Ok out /\
+    find_sect (sd_name "data") (o_sects out) = Some c /\ find_sect "data" (o_sects out) = Some s /\
+    s_data c = [1; 1; 1; 1] /\ s_data s = [1; 1; 1; 1].
+Proof. exact sectiondata_fixed_witness. Qed.
+Print Assumptions c12_sectiondata_fixed_witness.
 
 (* non-vacuity: a two-object link with a layout succeeds, satisfies the layout hypothesis, and the
    numbers are the expected ones *)
